@@ -60,6 +60,17 @@ def decode_fd_matrix(LogRule, parity, nterms):
     return ks, c0
 
 
+def spec_matrix(rec, r):
+    """the moment matrix of the SPECIFICATION's signature (Rules.tla: exponents and c0 of the configuration) for ratio r -
+    conditioning and tolerances are derived from it, never from the library's own _fd_matrix"""
+    nt = rec['nterms']
+    M = np.empty((nt, nt))
+    for i in range(nt):
+        for j, k in enumerate(rec['exps']):
+            M[i, j] = rec['c0'] / math.factorial(k) * (1.0 / r) ** (i * k)
+    return M
+
+
 def moment_residuals(w, exps, c0, r_exact):
     """sum_i w_i * c_j * t_j^i  in exact arithmetic on the floating-point weights."""
     wf = [Fraction(float(x)) for x in w]
@@ -143,7 +154,7 @@ def check_config(rec, rep, stats, rts, first_pass, shared=None):
             rep.violation('rule-length:' + key, dict(spec=rec_small(rec), got=list(w.shape)),
                           '%s: rule(%r) has %s weights, specification %d' % (key, r, w.shape, rec['nterms']))
             return
-        M = fdm.LogRule._fd_matrix(rx, rec['parity'], rec['nterms'])
+        M = spec_matrix(rec, rx)
         kappa = np.linalg.cond(M)
         if not np.isfinite(kappa) or kappa > 1e14:
             stats['skipped_illconditioned'] += 1      # beyond 1e14 numpy.linalg.pinv (rcond 1e-15) starts discarding singular values: no rule to speak of
@@ -193,7 +204,7 @@ def end_to_end(rule_obj, rec, rep, stats, key):
     diff = rule_obj.diff
     nfact = math.factorial(n)
     from numdifftools import finite_difference as fdm
-    M = fdm.LogRule._fd_matrix(r, rec['parity'], nt)
+    M = spec_matrix(rec, r)
     kappa = np.linalg.cond(M)
     if kappa * EPS > 1e-4:
         stats['skipped_illconditioned'] += 1
